@@ -157,7 +157,7 @@ def _vec_impl(tr, meth, f, self_ty, rhs_ty):
         return Fn(path, ret='r', ensures=ens)
     ens = [tag + '.valid:: self.v@.len() == other.v@.len()', tag + '.len:: r.v@.len() == self.v@.len()',
            tag + '.elem:: forall|k:int| 0 <= k < r.v@.len() ==> r.v@[k] == %s(self.v@[k], other.v@[k])' % f]
-    return Fn(path, ret='r', ensures=ens)
+    return Fn(path, ret='r', ensures=ens, valid='self.v@.len() == other.v@.len()')
 
 
 def _vec_assign(tr, meth, f, rhs_ty):
@@ -168,7 +168,7 @@ def _vec_assign(tr, meth, f, rhs_ty):
     ens = ([] if rhs_ty == 'f64' else [tag + '.valid:: old(self).v@.len() == other.v@.len()']) + [
         tag + '.len:: final(self).v@.len() == old(self).v@.len()',
         tag + '.elem:: forall|k:int| 0 <= k < old(self).v@.len() ==> final(self).v@[k] == %s(old(self).v@[k], %s)' % (f, rhs)]
-    return Fn(path, ensures=ens)
+    return Fn(path, ensures=ens, valid='true' if rhs_ty == 'f64' else 'old(self).v@.len() == other.v@.len()')
 
 
 for tr, meth, f in OPS:
